@@ -359,15 +359,21 @@ def r19_2(ctx, repo):
     for rel, cls, fn in repo.all_functions():
         if rel.startswith(('chi/plots', 'chi/library')):
             continue
-        if fn.name.startswith('_') and fn.name not in ('__call__',
-                                                       '__init__'):
-            continue
+        private = fn.name.startswith('_') and fn.name not in (
+            '__call__', '__init__')
         params = [a.arg for a in fn.args.args if a.arg not in ('self',)]
         params = [p for p in params if p not in SCALAR_PARAMS]
         uses_getter = cls and any(
             isinstance(c, ast.Call) and isinstance(c.func, ast.Attribute)
             and c.func.attr in _leaky_getters(repo)
             for c in ast.walk(fn))
+        if private:
+            # the parameters of a private helper are judged where a public
+            # method hands its own arguments on; what the helper borrows
+            # from a sub-model's getter is judged here
+            if not uses_getter:
+                continue
+            params = []
         if not params and not uses_getter:
             continue
         n += 1
@@ -451,6 +457,51 @@ def _mutable_fields(repo, cls):
                             if isinstance(v, ast.Call) and U(v.func).split(
                                     '.')[0] in ('np', 'numpy', 'pd'):
                                 out.add('self.' + t.attr)
+                            if isinstance(v, ast.Name):
+                                # a local that was built as a container
+                                for d in ast.walk(fn):
+                                    if isinstance(d, ast.Assign) and any(
+                                            isinstance(x, ast.Name)
+                                            and x.id == v.id
+                                            for x in d.targets) and (
+                                            isinstance(d.value, (
+                                                ast.List, ast.Dict,
+                                                ast.ListComp, ast.DictComp))
+                                            or (isinstance(d.value, ast.Call)
+                                                and U(d.value.func) in (
+                                                    'list', 'dict'))):
+                                        out.add('self.' + t.attr)
+                                    if isinstance(d, ast.AugAssign) \
+                                            and isinstance(
+                                                d.target, ast.Name) \
+                                            and d.target.id == v.id \
+                                            and isinstance(d.op, ast.Add) \
+                                            and not isinstance(
+                                                d.value, ast.Constant):
+                                        # grown in place (`names += more`)
+                                        out.add('self.' + t.attr)
+                                    if isinstance(d, ast.Call) and isinstance(
+                                            d.func, ast.Attribute) \
+                                            and d.func.attr in (
+                                                'append', 'extend') \
+                                            and U(d.func.value) == v.id:
+                                        out.add('self.' + t.attr)
+                # the class itself copies the field before handing it out
+                # somewhere: it believes the field to be a mutable container
+                if isinstance(n, ast.Return) and isinstance(
+                        n.value, ast.Call):
+                    f_ = U(n.value.func)
+                    inner = None
+                    if f_ in ('copy.copy', 'copy.deepcopy', 'list') \
+                            and n.value.args:
+                        inner = n.value.args[0]
+                    elif isinstance(n.value.func, ast.Attribute) \
+                            and n.value.func.attr == 'copy':
+                        inner = n.value.func.value
+                    if isinstance(inner, ast.Attribute) and isinstance(
+                            inner.value, ast.Name) \
+                            and inner.value.id == 'self':
+                        out.add('self.' + inner.attr)
                 if isinstance(n, ast.AugAssign) and isinstance(
                         n.target, ast.Subscript):
                     f = _self_field(n.target)
